@@ -3,7 +3,8 @@
 From Coq Require Import List ZArith NArith Bool Sorting.Permutation.
 From Pcfg Require Import Str Multiword Detect Segment SegCorr DetectProofsStr DetectProofsDrive DetectProofsSimple
      DetectProofsMw DetectProofsSeg DetectProofsWeb DetectProofsKbd DetectProofsCount DetectProofsAdj DetectProofsPipe DetectProofsInst.
-From PcfgGen Require Import Consts_gen Unicode_gen.
+From Pcfg Require Import DetectRt DetectGenProofs DetectGenInst.
+From PcfgGen Require Import Consts_gen Unicode_gen Detect_gen.
 Import ListNotations.
 Open Scope Z_scope.
 
@@ -172,9 +173,165 @@ Example C05_demo :
             w_demo <> [].
 Proof. exact demo_parse. Qed.
 
+(* ---- second tie to the source: the Python text of the simple detectors, of
+   their *_detection loops and of PCFGPasswordParser.parse is translated to Gallina
+   on every run (harness/translate_detect.py -> gen/Detect_gen.v, names py_...); each
+   translated function IS the model function the theorems above are about, on all
+   strings / section lists, for the per-character oracles (isalpha, isdigit,
+   isupper, lower_c) and multiword_detector.parse any functions.
+   Results of the translated functions: None = the Python raises (or a `while`
+   runs out of the fuel the translator gives it: drive_fuel for the *_detection
+   loops, len + 2 for the year loop - the *_never_raises / *_total theorems below
+   show it suffices); (PSec section, None) = `return section, None`;
+   (PList parsing, Some found) = `return parsing, found`. *)
+Theorem C05_source_detect_digits_is_model : forall isdigit sec,
+  py_detect_digits isdigit sec = py_of_dres sec (detect_digits isdigit (fst sec)).
+Proof. exact py_detect_digits_eq. Qed.
+(* read through the caller's test `if year:` / `if cs_string:` / `if alphas:` *)
+Theorem C05_source_detect_year_is_model : forall isdigit sec,
+  dres_if_truthy (py_detect_year isdigit sec) = detect_year isdigit year_prefixes (fst sec).
+Proof. exact py_detect_year_eq. Qed.
+Theorem C05_source_detect_context_sensitive_is_model : forall isdigit sec,
+  dres_if_truthy (py_detect_context_sensitive isdigit sec) = detect_context isdigit context_strings (fst sec).
+Proof. exact py_detect_context_sensitive_eq. Qed.
+(* the translated detect_alpha has the length-preserving lower-casing (aligned = true) *)
+Theorem C05_source_detect_alpha_is_model : forall isalpha isupper lower_c mwparse sec,
+  dres_alpha (py_detect_alpha isalpha isupper lower_c mwparse sec) =
+  detect_alpha isalpha isupper lower_c true mwparse (fst sec).
+Proof. exact py_detect_alpha_eq. Qed.
+(* the loops `while index < len(section_list)`: result = (final section_list, found list) *)
+Theorem C05_source_digit_detection_is_model : forall isdigit sl,
+  py_digit_detection isdigit sl = drive_all (detect_digits isdigit) false sl.
+Proof. exact py_digit_detection_eq. Qed.
+Theorem C05_source_year_detection_is_model : forall isdigit sl,
+  py_year_detection isdigit sl = drive_all (detect_year isdigit year_prefixes) true sl.
+Proof. exact py_year_detection_eq. Qed.
+Theorem C05_source_context_sensitive_detection_is_model : forall isdigit sl,
+  py_context_sensitive_detection isdigit sl = drive_all (detect_context isdigit context_strings) true sl.
+Proof. exact py_context_sensitive_detection_eq. Qed.
+Theorem C05_source_alpha_detection_is_model : forall isalpha isupper lower_c mwparse sl,
+  py_alpha_detection isalpha isupper lower_c mwparse sl =
+  match drive_all (detect_alpha isalpha isupper lower_c true mwparse) false sl with
+  | None => None
+  | Some (out, fs) => Some (out, flat_map fst fs, flat_map snd fs)
+  end.
+Proof. exact py_alpha_detection_eq. Qed.
+Theorem C05_source_other_detection_is_model : forall sl, py_other_detection sl = Some (other_detection sl).
+Proof. exact py_other_detection_eq. Qed.
+(* PCFGPasswordParser.parse: the detectors in the order of the source (keyboard
+   walk, e-mail, website: the model's, not translated), observed where
+   base_structure_creation is called: the section list and what is fed to
+   count_years, count_context_sensitive, count_alpha, count_alpha_masks,
+   count_digits, count_other *)
+Theorem C05_source_parse_is_model : forall isalpha isdigit isupper lower_c kbs fp_words min_run tlds thr minl maxl m pw,
+  py_parse isalpha isdigit isupper lower_c (mwparse lower_c thr minl maxl m)
+           (model_keyboard_walk isalpha isdigit lower_c kbs fp_words min_run)
+           (model_email_detection lower_c tlds) (model_website_detection isalpha lower_c tlds) pw =
+  parse_view (parse isalpha isdigit isupper lower_c true kbs fp_words min_run tlds year_prefixes context_strings
+                    thr minl maxl m pw).
+Proof. exact py_parse_eq. Qed.
+Theorem C05_source_parse_c_is_model : forall m pw, py_parse_c m pw = parse_view (parse_c m pw).
+Proof. exact py_parse_c_is_model. Qed.
+
+(* ---- the theorems above, for the translated functions *)
+Theorem C05_tiling_source :
+  forall m pw, pw <> [] ->
+  exists sl ys cs al ms ds os, py_parse_c m pw = Some (sl, ys, cs, al, ms, ds, os) /\
+    tiles c_pm pw sl /\ Forall c_sound sl /\ Forall (fun y => snd y <> None) sl.
+Proof. exact py_parse_c_tiling. Qed.
+Theorem C05_never_raises_source : forall m pw, pw <> [] -> py_parse_c m pw <> None.
+Proof. exact py_parse_c_never_raises. Qed.
+Theorem C05_counters_source : forall m pw, pw <> [] ->
+  exists sl ys cs al ms ds os, py_parse_c m pw = Some (sl, ys, cs, al, ms, ds, os) /\
+    Permutation ys (texts 3 sl) /\ Permutation cs (texts 4 sl) /\
+    al = map (map (lower1 c_lower)) (texts 5 sl) /\ ms = map (case_mask c_isupper) (texts 5 sl) /\
+    Permutation ds (texts 6 sl) /\ Permutation os (texts 7 sl).
+Proof. exact py_parse_c_counters. Qed.
+Theorem C05_sound_digit_source : forall m pw sl ys cs al ms ds os, pw <> [] ->
+  py_parse_c m pw = Some (sl, ys, cs, al, ms, ds, os) ->
+  forall a x y b, sl = a ++ x :: y :: b -> isC 6 x = true -> isC 6 y = false.
+Proof. exact py_parse_c_digit_maximal. Qed.
+(* one call of a translated detector, for every oracle *)
+Theorem C05_sound_digit_run_source : forall isdigit sec p f, py_detect_digits isdigit sec = Some (p, Some f) ->
+  exists l1 l2 l3, fst sec = l1 ++ l2 ++ l3 /\ forallb (fun c => negb (isdigit c)) l1 = true /\
+    forallb isdigit l2 = true /\ l2 <> [] /\ stops isdigit l3 /\
+    p = PList (osec l1 ++ [(l2, Some (LD (len l2)))] ++ osec l3) /\ f = l2.
+Proof. exact py_detect_digits_found. Qed.
+Theorem C05_sound_digit_none_left_source : forall isdigit sec p, py_detect_digits isdigit sec = Some (p, None) ->
+  p = PSec sec /\ forallb (fun c => negb (isdigit c)) (fst sec) = true.
+Proof. exact py_detect_digits_none. Qed.
+Theorem C05_sound_year_source : forall isdigit sec p f, dres_if_truthy (py_detect_year isdigit sec) = DYes p f ->
+  exists prefix l1 c2 c3 l3, In prefix [[49; 57]; [50; 48]]%N /\ fst sec = l1 ++ f ++ l3 /\ f = prefix ++ [c2; c3] /\
+    isdigit c2 = true /\ isdigit c3 = true /\ p = osec l1 ++ [(f, Some LY)] ++ osec l3.
+Proof. exact py_detect_year_found. Qed.
+Theorem C05_sound_context_source : forall isdigit sec p f,
+  dres_if_truthy (py_detect_context_sensitive isdigit sec) = DYes p f ->
+  exists l1 l3, fst sec = l1 ++ f ++ l3 /\ In f context_strings /\ f <> [] /\ p = osec l1 ++ [(f, Some LX)] ++ osec l3.
+Proof. exact py_detect_context_sensitive_found. Qed.
+Theorem C05_sound_alpha_split_source : forall isalpha isupper lower_c (mwp : str -> option (bool * list str)) sec p f,
+  (forall x b ws, mwp x = Some (b, ws) -> concat ws = x) -> lowne lower_c (fst sec) ->
+  dres_alpha (py_detect_alpha isalpha isupper lower_c mwp sec) = DYes p f ->
+  exists l1 l2 l3 pieces b, fst sec = l1 ++ l2 ++ l3 /\ l2 <> [] /\
+    forallb (fun c => negb (isalpha c)) (map (lower1 lower_c) l1) = true /\
+    forallb isalpha (map (lower1 lower_c) l2) = true /\
+    stops isalpha (map (lower1 lower_c) l3) /\
+    mwp (map (lower1 lower_c) l2) = Some (b, map (map (lower1 lower_c)) pieces) /\
+    concat pieces = l2 /\ pieces <> [] /\
+    p = osec l1 ++ map (fun pc => (pc, Some (LA (len pc)))) pieces ++ osec l3 /\
+    f = (map (map (lower1 lower_c)) pieces, map (case_mask isupper) pieces).
+Proof. exact py_detect_alpha_found. Qed.
+(* the translated detectors and loops never raise and the fuel of their `while`
+   loops suffices, on every section / section list, for every oracle; the loops
+   preserve the text *)
+Theorem C05_source_detect_digits_never_raises : forall isdigit sec, py_detect_digits isdigit sec <> None.
+Proof. exact py_detect_digits_never_raises. Qed.
+Theorem C05_source_detect_year_never_raises : forall isdigit sec, py_detect_year isdigit sec <> None.
+Proof. exact py_detect_year_never_raises. Qed.
+Theorem C05_source_detect_context_sensitive_never_raises : forall isdigit sec, py_detect_context_sensitive isdigit sec <> None.
+Proof. exact py_detect_context_sensitive_never_raises. Qed.
+Theorem C05_source_digit_detection_total : forall isdigit todo,
+  exists out fs, py_digit_detection isdigit todo = Some (out, fs) /\ concat (map fst out) = concat (map fst todo).
+Proof. exact py_digit_detection_total. Qed.
+Theorem C05_source_year_detection_total : forall isdigit todo,
+  exists out fs, py_year_detection isdigit todo = Some (out, fs) /\ concat (map fst out) = concat (map fst todo).
+Proof. exact py_year_detection_total. Qed.
+Theorem C05_source_context_sensitive_detection_total : forall isdigit todo,
+  exists out fs, py_context_sensitive_detection isdigit todo = Some (out, fs) /\
+                 concat (map fst out) = concat (map fst todo).
+Proof. exact py_context_sensitive_detection_total. Qed.
+Theorem C05_source_other_detection_total : forall todo,
+  exists out fs, py_other_detection todo = Some (out, fs) /\ map fst out = map fst todo /\
+                 Forall (fun y => snd y <> None) out.
+Proof. exact py_other_detection_total. Qed.
+
+(* the generated code runs; the hypotheses are satisfiable: '1qaz2019#1pass!' *)
+Example C05_source_demo :
+  py_parse_c [] w_demo =
+  Some ([([49; 113; 97; 122]%N, Some (LK 4)); ([50; 48; 49; 57]%N, Some LY); ([35; 49]%N, Some LX);
+         ([112; 97; 115; 115]%N, Some (LA 4)); ([33]%N, Some (LO 1))],
+        [[50; 48; 49; 57]%N], [[35; 49]%N], [[112; 97; 115; 115]%N], [[76; 76; 76; 76]%N], [], [[33]%N]) /\
+  w_demo <> [].
+Proof. exact demo_py_parse. Qed.
+Example C05_source_demo_detectors :
+  py_detect_year c_isdigit ([112; 50; 48; 49; 57; 33]%N, None) =
+    Some (PList [([112]%N, None); ([50; 48; 49; 57]%N, Some LY); ([33]%N, None)], Some [50; 48; 49; 57]%N) /\
+  py_detect_digits c_isdigit ([97; 49; 50; 98]%N, None) =
+    Some (PList [([97]%N, None); ([49; 50]%N, Some (LD 2)); ([98]%N, None)], Some [49; 50]%N) /\
+  py_detect_context_sensitive c_isdigit ([97; 35; 49; 98]%N, None) =
+    Some (PList [([97]%N, None); ([35; 49]%N, Some LX); ([98]%N, None)], Some [35; 49]%N) /\
+  py_detect_alpha c_isalpha c_isupper c_lower (mwparse_c []) ([49; 80; 97; 115; 115; 33]%N, None) =
+    Some (PList [([49]%N, None); ([80; 97; 115; 115]%N, Some (LA 4)); ([33]%N, None)],
+          Some [[112; 97; 115; 115]%N], Some [[85; 76; 76; 76]%N]).
+Proof. exact demo_py_detectors. Qed.
+
 Print Assumptions split_driver_tiling.
 Print Assumptions C05_tiling.
 Print Assumptions C05_counters.
 Print Assumptions C05_sound_digit.
 Print Assumptions C05_sound_multiword.
 Print Assumptions C05_refuted_lower_0130_website.
+Print Assumptions C05_source_parse_is_model.
+Print Assumptions C05_source_detect_alpha_is_model.
+Print Assumptions C05_tiling_source.
+Print Assumptions C05_counters_source.
+Print Assumptions C05_source_year_detection_total.
